@@ -51,6 +51,20 @@ def valid (bc : BatchConfig) : Bool :=
 
 end BatchConfig
 
+/-- The order in which Go happens to range over a map at the range sites of package `app`:
+    an arbitrary re-listing of the votes map and of a power map.  `Order.Valid` says each is a
+    permutation; `Proofs/AppOrder.lean` shows no result depends on the choice. -/
+structure Order where
+  votes : List (Addr × Nat) → List (Addr × Nat)
+  power : List (PubKey × Int) → List (PubKey × Int)
+
+/-- the canonical order used by the executable driver -/
+def Order.canonical : Order := { votes := id, power := id }
+
+structure Order.Valid (o : Order) : Prop where
+  votes_perm : ∀ l, (o.votes l).Perm l
+  power_perm : ∀ l, (o.power l).Perm l
+
 /-- `Voting[T,E]`: `votes` is the Go map sender → candidate index. -/
 structure Voting (T : Type) where
   votes : AMap Addr Nat
@@ -73,11 +87,11 @@ def outcomeIndexOn (listing : List (Addr × Nat)) (ncand : Nat) (required : Int)
     let c := countOn listing i
     decide (0 < c) && decide (required ≤ (c : Int)))
 
-def outcomeIndex (v : Voting T) (required : Int) : Option Nat :=
-  outcomeIndexOn v.votes v.candidates.length required
+def outcomeIndex (o : Order) (v : Voting T) (required : Int) : Option Nat :=
+  outcomeIndexOn (o.votes v.votes) v.candidates.length required
 
-def outcome (v : Voting T) (required : Int) : Option T :=
-  match v.outcomeIndex required with
+def outcome (o : Order) (v : Voting T) (required : Int) : Option T :=
+  match v.outcomeIndex o required with
   | none => none
   | some i => v.candidates[i]?
 
@@ -252,7 +266,7 @@ def checkInForkActive (app : App) : Bool :=
 
 /-! #### DeliverTx payload handlers -/
 
-def deliverBatchConfig (app : App) (sender : Addr) (activation threshold index : Nat)
+def deliverBatchConfig (o : Order) (app : App) (sender : Addr) (activation threshold index : Nat)
     (keypers : List Raw) : App × Resp :=
   match batchConfigFromMessage activation threshold index keypers with
   | none => (app, errResp)
@@ -265,7 +279,7 @@ def deliverBatchConfig (app : App) (sender : Addr) (activation threshold index :
       | none => (app, errResp)
       | some voting =>
         let app := { app with configVoting := voting }
-        match voting.outcome (toInt64 app.lastConfig.threshold) with
+        match voting.outcome o (toInt64 app.lastConfig.threshold) with
         | none => (app, okResp [])
         | some _ =>
           let app := { app with configVoting := Voting.empty }
@@ -293,11 +307,11 @@ def deliverCheckIn (app : App) (sender : Addr) (validatorKey : Raw) (encOk : Boo
       okResp [.checkIn sender encKey])
 
 /-- `maybeStartEon` -/
-def maybeStartEon (app : App) (eon : Nat) : App × Option DKG :=
+def maybeStartEon (o : Order) (app : App) (eon : Nat) : App × Option DKG :=
   match app.dkgs.get? eon with
   | none => (app, none)
   | some dkg =>
-    match dkg.success.outcome (toInt64 dkg.config.threshold) with
+    match dkg.success.outcome o (toInt64 dkg.config.threshold) with
     | none => (app, none)
     | some success =>
       if success || decide (eon < app.eonCounter) then (app, none)
@@ -305,7 +319,7 @@ def maybeStartEon (app : App) (eon : Nat) : App × Option DKG :=
         let (app, d) := app.startDKG dkg.config
         (app, some d)
 
-def deliverDKGResult (app : App) (sender : Addr) (eon : Nat) (success : Bool) : App × Resp :=
+def deliverDKGResult (o : Order) (app : App) (sender : Addr) (eon : Nat) (success : Bool) : App × Resp :=
   match app.dkgs.get? eon with
   | none => (app, errResp)
   | some dkg =>
@@ -315,7 +329,7 @@ def deliverDKGResult (app : App) (sender : Addr) (eon : Nat) (success : Bool) : 
       | none => (app, seenResp)
       | some voting =>
         let app := { app with dkgs := app.dkgs.insert eon { dkg with success := voting } }
-        match app.maybeStartEon eon with
+        match app.maybeStartEon o eon with
         | (app, none) => (app, okResp [])
         | (app, some d) =>
           (app, okResp [.eonStarted d.eon dkg.config.activation dkg.config.index])
@@ -409,25 +423,25 @@ def deliverApology (app : App) (sender : Addr) (eon : Nat) (accusers : List Raw)
         | none => (app, errResp)
         | some d => app.applyReg eon (registerApology d sender eon as) (.apology sender eon as evals)
 
-def deliverMessage (app : App) (sender : Addr) : Payload → App × Resp
-  | .batchConfig a t i ks => app.deliverBatchConfig sender a t i ks
+def deliverMessage (o : Order) (app : App) (sender : Addr) : Payload → App × Resp
+  | .batchConfig a t i ks => app.deliverBatchConfig o sender a t i ks
   | .blockSeen b => app.deliverBlockSeen sender b
   | .checkIn k ok e => app.deliverCheckIn sender k ok e
-  | .dkgResult eon s => app.deliverDKGResult sender eon s
+  | .dkgResult eon s => app.deliverDKGResult o sender eon s
   | .polyEval eon rs n e => app.deliverPolyEval sender eon rs n e
   | .polyCommitment eon ok g => app.deliverPolyCommitment sender eon ok g
   | .accusation eon as => app.deliverAccusation sender eon as
   | .apology eon as n e => app.deliverApology sender eon as n e
   | .none => (app, errResp)
 
-def deliverTx (app : App) : Tx → App × Resp
+def deliverTx (o : Order) (app : App) : Tx → App × Resp
   | .undecodable => (app, errResp)
   | .msg signer chainId nonce payload =>
     if chainId ≠ app.chainId then (app, errResp)
     else if app.nonces.contains (signer, nonce) then (app, errResp)
     else
       let app := { app with nonces := app.nonces ++ [(signer, nonce)] }
-      app.deliverMessage signer payload
+      app.deliverMessage o signer payload
 
 /-! #### CheckTx -/
 
@@ -531,12 +545,12 @@ structure EndResp where
   updates : List (PubKey × Int)
 deriving Repr, DecidableEq
 
-def endBlock (app : App) (height : Int) : App × EndResp :=
+def endBlock (o : Order) (app : App) (height : Int) : App × EndResp :=
   let (configs, events) := endBlockLoop app 0 [] app.configs []
   let app := { app with configs }
   let newValidators := app.currentValidators
-  let updates := validatorUpdatesOn
-    (diffPowermapsOn app.validators newValidators app.validators newValidators)
+  let updates := validatorUpdatesOn (o.power
+    (diffPowermapsOn app.validators newValidators (o.power app.validators) (o.power newValidators)))
   let app := { app with validators := newValidators, lastBlockHeight := height }
   (app, { events, updates := if app.devMode then [] else updates })
 
@@ -581,19 +595,27 @@ inductive Out where
   | commit
 deriving Repr, DecidableEq
 
-def App.step (app : App) : Op → App × Out
+/-- one ABCI call, with the map iteration order `o` -/
+def App.stepWith (o : Order) (app : App) : Op → App × Out
   | .begin h => (app, .begin (app.beginBlock h))
-  | .deliver tx => let (a, r) := app.deliverTx tx; (a, .deliver r)
+  | .deliver tx => let (a, r) := app.deliverTx o tx; (a, .deliver r)
   | .check tx => let (a, c) := app.checkTxOp tx; (a, .check c)
-  | .endBlock h => let (a, r) := app.endBlock h; (a, .endBlock r)
+  | .endBlock h => let (a, r) := app.endBlock o h; (a, .endBlock r)
   | .commit => (app.commit, .commit)
 
-/-- run a history, collecting outputs -/
-def App.run (app : App) : List Op → App × List Out
+/-- the executable step (canonical order) -/
+def App.step (app : App) (op : Op) : App × Out := app.stepWith Order.canonical op
+
+/-- run a history with a (possibly different) iteration order at every call, collecting outputs -/
+def App.runWith (app : App) : List (Order × Op) → App × List Out
   | [] => (app, [])
-  | op :: rest =>
-    let (a, o) := app.step op
-    let (a', os) := a.run rest
-    (a', o :: os)
+  | (o, op) :: rest =>
+    let (a, out) := app.stepWith o op
+    let (a', outs) := a.runWith rest
+    (a', out :: outs)
+
+/-- run a history in the canonical order -/
+def App.run (app : App) (ops : List Op) : App × List Out :=
+  app.runWith (ops.map (fun op => (Order.canonical, op)))
 
 end Shutter.App
